@@ -216,6 +216,31 @@ class C03(Prop):
                 yield {"kind": "diff", "src": src, "templates": {"p": "[{{ a }}{{ u.k }}]"},
                        "data": {"u": {"k": 0}, "nums": [1, 2, 3]}, "loader": loader, "mask": 0, "via": "from_string",
                        "limits": None, "counting": True, "family": "evaluation-counts"}
+        # static analysis of partials that load partials: which scope an included template is analysed in (the
+        # one it is loaded from, which is not the root's inside a rendered partial) is decided twice
+        scoped = {
+            "card": "{% assign price = item.price %}{% include 'label' %}{{ title }}",
+            "label": "{{ title }}: {{ price }} {{ currency }}{% assign shown = true %}",
+            "rcard": "{% assign price = item.price %}{% render 'label', price: price %}{{ shown }}",
+            "icard": "{% assign price = 1 %}{% include 'label' %}{{ shown }}{% render 'leaf', x: shown %}",
+            "leaf": "{{ x }}{{ title }}{{ price }}{% include 'label' %}",
+            "base": "{% assign price = 2 %}[{% block b %}{% include 'label' %}{% endblock %}]{{ shown }}",
+            "kid": "{% extends 'base' %}{% block b %}{{ block.super }}{% render 'card', item: product %}{{ price }}{% endblock %}",
+        }
+        for src in (
+            "{% assign title = 'Home' %}{% render 'card', item: product %}{{ price }}",
+            "{% assign title = 'Home' %}{% include 'card' %}{{ price }}{{ shown }}",
+            "{% assign title = 'Home' %}{% render 'rcard', item: product %}",
+            "{% include 'icard' %}{{ title }}",
+            "{% for item in products %}{% render 'card', item: item %}{% include 'icard' %}{% endfor %}{{ item }}",
+            "{% with title: 't' %}{% render 'icard' %}{% endwith %}{% include 'label' %}",
+            "{% assign title = 'T' %}{% render 'kid' %}{% include 'kid' %}",
+            "{% macro m item %}{% render 'card', item: item %}{% include 'label' %}{% endmacro %}{% call m product %}{{ price }}",
+        ):
+            for loader in ("dict", "adict"):
+                yield {"kind": "diff", "src": src, "templates": scoped,
+                       "data": {"product": {"price": 3}, "products": [{"price": 4}], "currency": "EUR"}, "loader": loader,
+                       "mask": 0, "via": "from_string", "limits": None, "family": "analysis-scope-chains"}
         # depth and output limits across include / render / extends chains
         chain = {"d1": "1{% include 'd2' %}", "d2": "2{% render 'd3' %}", "d3": "3{% include 'd4' %}", "d4": "4{% render 'd5' %}",
                  "d5": "5", "base": "[{% block b %}B{% endblock %}]",
